@@ -199,6 +199,28 @@ def cases(draw, names, nmax):
     A = rewire.shuffle(draw, A)
     n = len(A)
     if name == "randomizer_bin_und":
+        # this routine special-cases dense graphs (works on the complement) and nodes connected to everybody:
+        # make isolated nodes and full nodes common, in sparse and in dense graphs
+        A = A.copy()
+        mod = draw(st.sampled_from(["none", "none", "isolated", "full", "both", "densify"]))
+        if mod == "densify":
+            A = A | draw(gen.er_adj(n, False, "dense"))
+            mod = draw(st.sampled_from(["none", "isolated", "full"]))
+        if mod in ("isolated", "both"):
+            v = draw(st.integers(0, n - 1))
+            A[v, :] = False
+            A[:, v] = False
+        if mod in ("full", "both"):
+            u = draw(st.integers(0, n - 1))
+            if mod != "both" or u != v:
+                keep = A[:, v].copy() if mod == "both" else None
+                A[u, :] = True
+                A[:, u] = True
+                A[u, u] = False
+                if mod == "both":
+                    A[v, :] = False
+                    A[:, v] = False
+        fam = fam + "/" + mod
         W = A.astype(float)
     else:
         W = draw(gen.weights_for(A, draw(st.sampled_from(["bin", "dyadic", "dyadic"])), directed))
